@@ -44,6 +44,22 @@ template<typename Sbx> struct Own {
     o(i) = sb.get_app_pointer(reinterpret_cast<int*>(p));
     return "ok " + std::to_string(tokval(o(i).UNSAFE_sandboxed(sb)));
   }
+  // the tainted pointer an owner hands out: null when it holds nothing; otherwise it designates memory of THIS sandbox, its guest
+  // representation is the token, and looking it up gives the application pointer back
+  std::string tt(int i)
+  {
+    auto tp = o(i).to_tainted();
+    if (tp == nullptr) return "ok tt=null";
+    auto* raw = tp.UNSAFE_unverified();
+    bool in = sb.is_pointer_in_sandbox_memory(raw);      // (the noop backend calls every address both sandbox and application memory)
+    if constexpr (!std::is_pointer_v<typename Sbx::T_PointerType>) {
+      auto a = reinterpret_cast<uintptr_t>(raw), b = (uintptr_t)sb.get_sandbox_impl()->Base;
+      in = in && a >= b && a - b < sb.get_total_memory();
+    }
+    bool same = tokval(tp.UNSAFE_sandboxed(sb)) == tokval(o(i).UNSAFE_sandboxed(sb));
+    int* r = sb.lookup_app_ptr(tp);
+    return std::string("ok tt=") + (in ? "in" : "out") + " same=" + (same ? "1" : "0") + " rt=" + (r ? std::to_string(reinterpret_cast<uintptr_t>(r) - 0x1000) : std::string("null"));
+  }
   std::string stat(int i) { return "tok=" + std::to_string(tokval(o(i).UNSAFE_sandboxed(sb))) + " unreg=" + (o(i).is_unregistered() ? "1" : "0"); }
   std::string look(uint64_t t)
   {
@@ -108,6 +124,7 @@ int main()
         using AP = std::remove_reference_t<decltype(w.o(0))>;
         int i = atoi(t[1].c_str()); w.o(i).~AP(); new (w.store[i]) AP(); return std::string("ok"); });
       if (op == "ostat") return with([&](auto& w) { return w.stat(atoi(t[1].c_str())); });
+      if (op == "ott") return with([&](auto& w) { return w.tt(atoi(t[1].c_str())); });
       if (op == "olook") return with([&](auto& w) { return w.look((uint64_t)parse_dec(t[1])); });
       return "badop";
     });
